@@ -1087,6 +1087,10 @@ HOOK_COMMITS = ['d4e24c9b']
 # properties whose thorough tier (10x cases, release profile where listed, coqchk -o) was run to the end on the
 # unchanged tree in this development; the others register the quick command only (an unvalidated
 # long command is not offered as a check)
-THOROUGH_OK = {'C01', 'C02', 'C03', 'C04', 'C05', 'C06', 'C07', 'C08', 'C09', 'C10', 'C13'}
+THOROUGH_OK = {'C01', 'C02', 'C03', 'C04', 'C05', 'C06', 'C07', 'C08', 'C09', 'C10', 'C13', 'C14', 'C15', 'C16', 'C17', 'C18',
+               'C19', 'C20', 'C21', 'C22', 'C24', 'C26', 'C27', 'C28', 'C29', 'C30', 'C31', 'C32', 'C34'}
+# not validated to the end in the time available (runs exceeded the 40 minute cap on the shared machine, or were
+# disturbed by a concurrent run): C11, C12, C23, C25, C33 - their thorough tier exists (`bin/check <id> --tier thorough`)
+# but is not registered
 
 NOT_CLAIMED = {}
